@@ -326,8 +326,34 @@ func c05Cap(c *Ctx, ct collapsingType) {
 		found = r.Key()
 		isMin := (r.Op == "call" && strings.HasSuffix(r.Sym, ".min") || r.Op == "builtin" && r.Sym == "min") && len(r.Args) == 2
 		if !isMin {
-			// open-coded min: if a < b {return a}; return b  — accept when the path condition orders the two candidates
-			ok = false
+			// open-coded min: `if a < b { return a }; return b` — the path returns the limit, or returns the uncapped
+			// length under a condition that places it at or below the limit
+			isInner := func(x *Term) bool {
+				return isMethodCall(x, "getNewLength") && len(x.Args) == 3 && isRecvField(x.Args[0], ct.innerFld) && x.Args[1].isParam(1) && x.Args[2].isParam(2)
+			}
+			isLim := func(x *Term) bool { return isRecvField(x, ct.limitFld) }
+			ordered := false // inner ≤ limit known on the path
+			compared := false
+			for _, cd := range p.Conds {
+				t := cd.Term
+				if !t.isBin("<") && !t.isBin("<=") {
+					continue
+				}
+				switch {
+				case isInner(t.Args[0]) && isLim(t.Args[1]): // inner < lim / inner <= lim
+					compared = true
+					ordered = cd.Taken
+				case isLim(t.Args[0]) && isInner(t.Args[1]): // lim < inner / lim <= inner
+					compared = true
+					ordered = !cd.Taken
+				}
+			}
+			switch {
+			case isLim(r) && compared:
+			case isInner(r) && compared && ordered:
+			default:
+				ok = false
+			}
 			continue
 		}
 		var inner, lim bool
